@@ -280,6 +280,16 @@ pub fn reader_on_removed_tree_node() -> ConcCase {
 /// 64-bin table; I inserts 41 fresh keys (52 entries >= 48 = 3/4 of 64); R finishes; C removes one
 /// entry with `compute_if_present(.., |..| None)`.
 pub fn overdue_then_removing_compute() -> ConcCase {
+    overdue_then(6, "scenario:overdue-then-removing-compute", vec![COp::CipRm(1)])
+}
+
+/// the same state (growth overdue at rest), then the other removing calls: `remove`, `remove_entry`,
+/// `retain` - "removing entries - by any operation - never makes it grow"
+pub fn overdue_then_remove() -> ConcCase {
+    overdue_then(7, "scenario:overdue-then-remove", vec![COp::Rm(1), COp::Rme(2), COp::Retain("k3", false)])
+}
+
+fn overdue_then(id: usize, name: &'static str, last: Vec<COp>) -> ConcCase {
     let mut origin = 1400u32;
     let mut fresh = || {
         origin += 1;
@@ -295,18 +305,18 @@ pub fn overdue_then_removing_compute() -> ConcCase {
         ScriptStep { tid: 2, until: Until::Finished },
     ];
     ConcCase {
-        id: 6,
+        id,
         seed: 0xC14,
-        hash_class: "scenario:overdue-then-removing-compute",
+        hash_class: name,
         hashes: ident_hashes(200),
         cap: 10,
         prefill,
-        programs: vec![vec![COp::Reserve(1)], ins, vec![COp::CipRm(1)]],
+        programs: vec![vec![COp::Reserve(1)], ins, last],
         policy: Policy::Script(script),
         pin: false,
     }
 }
 
 pub fn all() -> Vec<(&'static str, ConcCase)> {
-    vec![("stale-helper", stale_helper()), ("clear-in-transfer-window", clear_in_transfer_window()), ("null-first-iter", null_first_iter()), ("tree-stale-linear-reader", tree_stale_linear_reader()), ("iter-sees-unlinked-tree-insert", iter_sees_unlinked_tree_insert()), ("reader-on-removed-tree-node", reader_on_removed_tree_node()), ("overdue-then-removing-compute", overdue_then_removing_compute())]
+    vec![("stale-helper", stale_helper()), ("clear-in-transfer-window", clear_in_transfer_window()), ("null-first-iter", null_first_iter()), ("tree-stale-linear-reader", tree_stale_linear_reader()), ("iter-sees-unlinked-tree-insert", iter_sees_unlinked_tree_insert()), ("reader-on-removed-tree-node", reader_on_removed_tree_node()), ("overdue-then-removing-compute", overdue_then_removing_compute()), ("overdue-then-remove", overdue_then_remove())]
 }
